@@ -67,6 +67,20 @@ structure RPkg where
   aliases : List (Name × XTy × Bool)
   deriving Repr, Inhabited
 
+def T (nm : Name) : XTy := .n nm []
+
+/-- a class the plugin names from its context (anonymous literal, map with a union value) -/
+def generated : XTy := T n!"?generated"
+
+/-- equality where `generated` on the expected side matches any plain name -/
+def eqW : Nat → XTy → XTy → Bool
+  | 0, _, _ => false
+  | k + 1, .n a as, .n b bs =>
+    if b == n!"?generated" then as.isEmpty
+    else a == b && as.length == bs.length && (as.zip bs).all (fun p => eqW k p.1 p.2)
+  | k + 1, .tup as, .tup bs => as.length == bs.length && (as.zip bs).all (fun p => eqW k p.1 p.2)
+  | _, _, _ => false
+
 /-! ### serde's camelCase rule on the byte encoding of names -/
 
 def bytesOf : Nat → Nat → List Nat → List Nat
@@ -107,8 +121,6 @@ def RField.wire (s : RStruct) (f : RField) : Name :=
 def wireHintsOK (ss : List RStruct) : Bool := ss.all (fun s => s.fields.all (fun f => f.wireHint == f.wire s))
 
 /-! ### the documented metamodel → Rust mapping -/
-
-def T (nm : Name) : XTy := .n nm []
 
 def rustBase : Base → XTy
   | .string | .regExp => T n!"String"
@@ -151,6 +163,7 @@ def rustTyOf (M : Model) : Nat → Ty → XTy
        | xs => .tup xs)
     | .strLit _ => T n!"String"
     | .lit [] => T n!"LSPObject"
+    | .lit _ => generated
     | _ => T n!"?unsupported"
 
 /-- `or` / `tuple` with a null member -/
@@ -177,7 +190,7 @@ def rustStructMismatches (M : Model) (R : RPkg) (s : Struct) : List Mismatch :=
       match rs.fields.filter (fun f => f.wireHint == p.name) with
       | [f] =>
         let site := s.name.toString ++ "." ++ p.name.toString
-        (if XTy.beq (XTy.unbox 8 f.ty) (rustFieldTy M p) then [] else [⟨site, "rust-type", showX (rustFieldTy M p), showX f.ty⟩]) ++
+        (if eqW 12 (XTy.unbox 8 f.ty) (rustFieldTy M p) then [] else [⟨site, "rust-type", showX (rustFieldTy M p), showX f.ty⟩]) ++
         (if f.gated == p.proposed then [] else [⟨site, "feature-gate", toString p.proposed, toString f.gated⟩])
       | [] => [⟨s.name.toString ++ "." ++ p.name.toString, "field-missing", p.name.toString, ""⟩]
       | _ => [⟨s.name.toString ++ "." ++ p.name.toString, "field-duplicate", p.name.toString, ""⟩]) ++
@@ -239,8 +252,8 @@ def fieldTyIs (rs : RStruct) (wire : Name) (t : XTy) : Bool :=
   | _ => false
 
 def requestStructMismatches (R : RPkg) (r : Request) : List Mismatch :=
-  match r.typeName with
-  | none => [⟨r.method.toString, "typeName-missing", "", ""⟩]
+  match (some (withSuffix r.baseName n!"Request") : Option Name) with
+  | none => []
   | some tn =>
     let base := if tn.endsWith n!"Request" then tn.dropSuffix n!"Request" else tn
     let respName := base.append n!"Response"
@@ -257,8 +270,8 @@ def requestStructMismatches (R : RPkg) (r : Request) : List Mismatch :=
        else [⟨r.method.toString, "response-struct-envelope", "jsonrpc: String, id: LSPIdOptional", ""⟩])
 
 def notificationStructMismatches (R : RPkg) (n : Notification) : List Mismatch :=
-  match n.typeName with
-  | none => [⟨n.method.toString, "typeName-missing", "", ""⟩]
+  match (some (withSuffix n.baseName n!"Notification") : Option Name) with
+  | none => []
   | some tn =>
     match R.structs.find? (·.name == tn) with
     | none => [⟨n.method.toString, "notification-struct-missing", tn.toString, ""⟩]
